@@ -105,7 +105,7 @@ def open_bus(fmt, n, max_persist, tag='w'):
         os.remove(work)
     shutil.copyfile(path, work)
     os.utime(work, (1_600_000_000, 1_600_000_000))
-    return getattr(sf.Bus, frm)(work, config=cfg, max_persist=max_persist), work
+    return getattr(sf.Bus, frm)(work, config=cfg, max_persist=max_persist).rename('busname'), work
 
 
 def events(n):
@@ -207,6 +207,7 @@ class Run:
         self.bus, self.work = open_bus(fmt, n, mp, tag)
         self.model = Model(self.all_labels, mp)
         self.touched_labels = set()
+        self.expected_name = 'busname'
 
     def frame_ok(self, tag, label, frame):
         if not same_frame(frame, self.eager[label]):
@@ -218,6 +219,10 @@ class Run:
     def after(self, tag):
         '''invariants after an event on the current bus'''
         ls = loaded_set(self.bus)
+        if self.bus.name != self.expected_name:
+            # what the Bus says about itself (its name) is not a function of what happens to be loaded
+            self.ctx.violation(f'{tag}|bus-name-changed-by-access', **self.info, name=repr(self.bus.name), expected=self.expected_name)
+            return False
         if self.mp is not None and len(ls) > self.mp:
             self.ctx.violation(f'{tag}|more-than-max_persist-loaded', **self.info, loaded=sorted(ls), max_persist=self.mp)
             return False
@@ -388,6 +393,7 @@ class Run:
                     d, newL = bus.sort_index(ascending=False), sorted(L, reverse=True)
                 else:
                     d, newL = bus.rename('renamed'), list(L)
+                    self.expected_name = 'renamed'
                 if not isinstance(d, sf.Bus) or d.index.values.tolist() != newL:
                     ctx.violation(f'{tag}|derived-labels', **self.info, got=d.index.values.tolist() if hasattr(d, 'index') else type(d).__name__, expected=newL)
                     return 'violation'
